@@ -243,18 +243,16 @@ class Models:
                     if isinstance(x, IntV):
                         st.store.add_le(x.e + vbytes - mhl.e)
             return AdtV(tid, 0, vals)
-        if p == 'core::ptr::non_null::NonNull':
-            # NonNull<[T]> / NonNull<T> inside an owning container (Box): valid, non-null memory
-            inner = T[ty['variants'][0]['fields'][0]['ty']]
-            if inner['kind'] == 'ptr':
-                to = T[inner['to']]
-                if to['kind'] in ('slice', 'str'):
-                    esz = T[to['elem']].get('size', 1) if to['kind'] == 'slice' else 1
-                    rid = I.new_region(st, name + '_box')
-                    n = fresh(name + '_len')
-                    st.store.add_le(-V(n))
-                    st.store.add_eq(V(n) * esz - V(I.regions[rid].L))
-                    return AdtV(tid, 0, [SliceV(PtrV(rid, ZERO), V(n), esz)])
+        if p in ('core::ptr::non_null::NonNull', 'core::ptr::NonNull') and ty.get('targs'):
+            # NonNull<[T]> inside an owning container (Box): valid, non-null memory
+            to = T[ty['targs'][0]]
+            if to['kind'] in ('slice', 'str'):
+                esz = T[to['elem']].get('size', 1) if to['kind'] == 'slice' else 1
+                rid = I.new_region(st, name + '_box')
+                n = fresh(name + '_len')
+                st.store.add_le(-V(n))
+                st.store.add_eq(V(n) * esz - V(I.regions[rid].L))
+                return AdtV(tid, 0, [SliceV(PtrV(rid, ZERO), V(n), esz)])
         alt = self.alts.get(p)
         if alt is not None:
             # I-SRCH / I-PRE: `call` is paired with the active field of `kind` (one alternative per analysis variant)
